@@ -4,7 +4,7 @@
    (ii)  ConfigObject::ModifyAttribute / RestoreAttribute (lib/base/configobject.cpp:92-316), statement by
          statement; DumpModifiedAttributes (610-673) and its replay; ConfigWriter::EmitNumber on decimals;
    (iii) the system-call model of AtomicFile (lib/base/atomic-file.cpp) with crash = prefix of the trace. *)
-From Icv Require Import Base.Tac Persist.PsValue.
+From Icv Require Import Base.Tac Persist.PsValue Facts.Facts_c17.
 From Coq Require Import NArith.
 Local Open Scope N_scope.
 
@@ -429,8 +429,14 @@ Fixpoint ps_dump_modattrs_keys (o : ps_mobj) (keys : list ps_key) : option (list
 Definition ps_dump_modattrs (o : ps_mobj) : option (list (ps_key * ps_value)) :=
   ps_dump_modattrs_keys o (map fst (ps_orig_dict o)).
 
-(* ConfigWriter::EmitNumber: "fp << std::fixed << val", six decimals, on the decimal m*10^-k;
-   rounds half away from zero on the decimal (the generators avoid ties) *)
+(* ConfigWriter::EmitNumber.  The form the source has now is read from the regenerated fact f_cw_number_roundtrip
+   (tools/facts_c17.py; shared with C17):
+   rt = false (as pinned): "fp << std::fixed << val", six decimals, on the decimal m*10^-k; rounds half away from zero
+     on the decimal (the generators avoid ties);
+   rt = true (fix 1e5729f): six decimals, more only while the text does not read back (strtod) as the same double -
+     the text denotes the supplied number exactly, so the lexer returns it unchanged. *)
+Definition ps_src_number_roundtrip : bool := match f_cw_number_roundtrip with Some b => b | None => false end.
+
 Definition ps_emit_num (m : Z) (k : N) : Z * N :=
   if k <=? 6 then (m, k)
   else let p := Z.pow 10 (Z.of_N (k - 6)) in
@@ -446,15 +452,17 @@ Fixpoint ps_norm_num (fuel : nat) (m : Z) (k : N) : Z * N :=
   end.
 
 (* what the lexer reads back from the emitted text, for the numbers of a value (strings: see C17) *)
-Fixpoint ps_writer_codec (v : ps_value) {struct v} : ps_value :=
+Fixpoint ps_writer_codec_m (rt : bool) (v : ps_value) {struct v} : ps_value :=
   match v with
-  | PsNum m k => let '(m', k') := ps_emit_num m k in let '(m2, k2) := ps_norm_num 6 m' k' in PsNum m2 k2
-  | PsArr l => PsArr (map ps_writer_codec l)
+  | PsNum m k => if rt then PsNum m k
+                 else let '(m', k') := ps_emit_num m k in let '(m2, k2) := ps_norm_num 6 m' k' in PsNum m2 k2
+  | PsArr l => PsArr (map (ps_writer_codec_m rt) l)
   | PsDict d =>
     PsDict ((fix go (d : ps_dict) : ps_dict :=
-               match d with [] => [] | (k, x) :: t => (k, ps_writer_codec x) :: go t end) d)
+               match d with [] => [] | (k, x) :: t => (k, ps_writer_codec_m rt x) :: go t end) d)
   | _ => v
   end.
+Definition ps_writer_codec : ps_value -> ps_value := ps_writer_codec_m ps_src_number_roundtrip.
 
 (* replay: "obj.modify_attribute(attr, value)" per line, then "obj.version = ..."; an exception ends the script *)
 Fixpoint ps_replay_lines (fe : ps_fenv) (script : list (ps_key * ps_value)) (now : Z) (o : ps_mobj) : bool * ps_mobj :=
